@@ -77,6 +77,11 @@ def rel_file(loc_file):
 
 
 def failure_key(cls, kind, loc, msg, label):
+    if kind == "panic" and msg.startswith("VERIF-ORACLE"):
+        # not a panic of the library: the harness's no-crash oracle (an accepted object nested
+        # deeper than the documented limit / ext.tree_height differing from the real depth)
+        what = "depth-guard-bypassed" if "depth guard bypassed" in msg else "tree-height-differs-from-real-depth"
+        return "oracle:%s:%s" % (what, family(cls))
     if kind == "panic":
         m = re.match(r"^(.*):(\d+)$", loc)
         if m:
@@ -179,14 +184,14 @@ def models_tie(rep, hbin, seed):
     if p.returncode != 0:
         raise RuntimeError("robust models failed: " + p.stderr[-1500:])
     open(os.path.join(tdir, "RobustCasesGen.v"), "w").write(p.stdout)
-    m = re.search(r"MODELS thr=(\d+) plan=(\d+) lex=(\d+)", p.stderr)
-    rows = [int(x) for x in m.groups()] if m else [0, 0, 0]
+    m = re.search(r"MODELS thr=(\d+) plan=(\d+) lex=(\d+) height=(\d+)", p.stderr)
+    rows = [int(x) for x in m.groups()] if m else [0, 0, 0, 0]
     c1 = vlib.coqc("Tables/RobustCasesGen.v")
     if c1.returncode != 0:
         raise RuntimeError("RobustCasesGen.v does not compile: " + c1.stderr[-1500:])
     c2 = vlib.coqc("Tables/RobustCasesCheck.v")
     flat = re.sub(r"\s+", " ", c2.stdout)
-    ok = c2.returncode == 0 and "= ([], [], [], [], [])" in flat
+    ok = c2.returncode == 0 and "= ([], [], [], [], [], [])" in flat
     mv = re.search(r"= (\d+)(?:%N)? : N", flat)
     regress = {"0": "equals the model of the code as written (planner_total)",
                "1": "equals the code BEFORE /repo 540253fb: the repair of DESIGN 10-f (len - 1 on an empty derivation path) has been lost",
@@ -204,7 +209,7 @@ def models_tie(rep, hbin, seed):
         impl_panics = impl_panics + lex_panics
         found = bool(impl_panics or thr_panics)
         rep.violation("models-tie", "the compiled code and the Coq models of RobustModel.v disagree: %s" % body[:1500],
-                      {"property": "C11", "broken_tie": "Tables/RobustCasesCheck.v: robust_mismatches = ([],[],[],[],[])",
+                      {"property": "C11", "broken_tie": "Tables/RobustCasesCheck.v: robust_mismatches = ([],[],[],[],[],[])",
                        "differing_rows (input, implementation, model)": body,
                        "implementation_panics_on": (impl_panics + thr_panics)[:5],
                        "planner_graph": regress,
@@ -217,7 +222,7 @@ def run(rep, tier, seed, replay):
     if replay:
         return run_replay(rep, hbin, replay)
     ok, thms = vlib.proof_gates(rep, "C11")
-    tie_ok, tie_rows = (False, [0, 0, 0])
+    tie_ok, tie_rows = (False, [0, 0, 0, 0])
     if ok:
         tie_ok, tie_rows = models_tie(rep, hbin, seed)
 
@@ -293,7 +298,7 @@ def run(rep, tier, seed, replay):
             "the harness profile (release + debug assertions + overflow checks): debug_assert! and arithmetic overflow are panics here"],
         "partial_nature": "theorems cover the modelled functions only; see 'outside_model'. Runtime behaviours are observed, not proved.",
         "outside_model": OUTSIDE_MODEL,
-        "model_tie_rows": {"threshold": tie_rows[0], "planner": tie_rows[1], "lexer": tie_rows[2], "all_equal_inside_coq": tie_ok},
+        "model_tie_rows": {"threshold": tie_rows[0], "planner": tie_rows[1], "lexer": tie_rows[2], "tree_height_per_constructor": tie_rows[3], "all_equal_inside_coq": tie_ok},
         "evaluations": total, "distinct_nontrivial": distinct,
         "outcomes_total": agg,
         "per_entry_point": classes,
